@@ -133,7 +133,7 @@ def rule_SER(FA):
                             names.add(a['c'].strip('"'))
             stys = [t['f']['fn']['gargs'][-1] for b in ser['blocks'] for t in [b['t']]
                     if t['k'] == 'call' and 'fn' in t['f'] and t['f']['fn']['name'] == 'serialize_field' and t['f']['fn'].get('gargs')]
-            wrappers = [x for x in stys if x not in [y['ty'] for y in adt['fields']]]
+            wrappers = [x for x in stys if '__SerializeWith' in x]
             if wrappers:
                 out.append(Inst('R-SER', 'R-SER|%s|serialize uses field types' % base, 'violation', ser['span'],
                                 'a field of %s is serialized through a wrapper type (%s): hand-written field serializer outside the trusted derive' % (short, wrappers[0].split('::')[-1]), props))
@@ -189,8 +189,8 @@ def rule_SER(FA):
             if n_inv < n - (len(fields) - len(nonphantom)) or n_def:
                 out.append(Inst('R-SER', 'R-SER|%s|missing element is an error' % base, 'violation', vs[0]['span'],
                                 'deserializer substitutes a default for a missing element of %s (serde(default)): %d invalid_length arms for %d reads' % (short, n_inv, n), props))
-            if (n == len(fields) or n == len(nonphantom)) and sorted(etys) != sorted(ftys) and sorted(etys) != sorted(x['ty'] for x in nonphantom):
-                odd = [e for e in etys if e not in ftys]
+            odd = [e for e in etys if '__DeserializeWith' in e]
+            if (n == len(fields) or n == len(nonphantom)) and odd:
                 out.append(Inst('R-SER', key, 'violation', vs[0]['span'],
                                 'deserializer reads %s through a wrapper type (%s): a hand-written field deserializer is outside the trusted derive, so "deserialization accepts what serialization wrote" is not discharged' % (
                                     short, ', '.join(x.split('::')[-1] for x in odd[:3])), props, sample={'element_types': etys, 'field_types': ftys}))
